@@ -674,12 +674,33 @@ func sizeClass(dir string, n int) string {
 	return dir + ">=1M"
 }
 
+// freePort: an OS-chosen free TCP port on addr that this process has not handed out before (two successive
+// bind-and-close probes may return the same port).
+var (
+	portMu   sync.Mutex
+	portSeen = map[string]bool{}
+)
+
+func freePort(addr string) int {
+	portMu.Lock()
+	defer portMu.Unlock()
+	for i := 0; i < 50; i++ {
+		p := hx.FreePort(addr)
+		k := fmt.Sprintf("%s:%d", addr, p)
+		if p != 0 && !portSeen[k] {
+			portSeen[k] = true
+			return p
+		}
+	}
+	return hx.FreePort(addr)
+}
+
 func runServer(sp srvSpec, seed int64, tier string, connsPer int) ([]connResult, error) {
 	addr := fmt.Sprintf("127.0.1.%d", 10+sp.idx%200)
 	userIP := fmt.Sprintf("127.0.1.%d", 210+sp.idx%40)
 	r := rand.New(rand.NewSource(seed))
 	kcpPort, quicPort := 0, 0
-	httpsPort, muxPort := 0, hx.FreePort(addr)
+	httpsPort, muxPort := 0, freePort(addr)
 	s, err := hx.StartServer(addr, func(c *v1.ServerConfig) {
 		mux := sp.mux
 		c.Transport.TCPMux = &mux
@@ -694,7 +715,7 @@ func runServer(sp srvSpec, seed int64, tier string, connsPer int) ([]connResult,
 		if sp.share {
 			httpsPort = c.BindPort
 		} else {
-			httpsPort = hx.FreePort(addr)
+			httpsPort = freePort(addr)
 		}
 		c.VhostHTTPSPort = httpsPort
 		c.TCPMuxHTTPConnectPort = muxPort
@@ -742,7 +763,7 @@ func runServer(sp srvSpec, seed int64, tier string, connsPer int) ([]connResult,
 		visitor := func(vb *v1.VisitorBaseConfig, vtyp string) {
 			vb.Name, vb.Type = px.name+"_visitor", vtyp
 			vb.ServerName, vb.SecretKey = px.name, "sk-"+px.name
-			vb.BindAddr, vb.BindPort = addr, hx.FreePort(addr)
+			vb.BindAddr, vb.BindPort = addr, freePort(addr)
 			vb.Transport.UseEncryption, vb.Transport.UseCompression = px.enc, px.comp
 			px.port = vb.BindPort
 		}
@@ -750,7 +771,7 @@ func runServer(sp srvSpec, seed int64, tier string, connsPer int) ([]connResult,
 		case "tcp":
 			c := &v1.TCPProxyConfig{}
 			base(&c.ProxyBaseConfig)
-			c.RemotePort = hx.FreePort(addr)
+			c.RemotePort = freePort(addr)
 			px.port = c.RemotePort
 			pcs = append(pcs, c)
 		case "https":
